@@ -22,6 +22,8 @@ func main() {
 		os.Exit(cmdVerify(os.Args[2:]))
 	case "list":
 		os.Exit(cmdList(os.Args[2:]))
+	case "check":
+		os.Exit(cmdCheck(os.Args[2:]))
 	default:
 		fmt.Fprintln(os.Stderr, "unknown command", os.Args[1])
 		os.Exit(2)
@@ -130,7 +132,7 @@ func cmdVerify(args []string) int {
 
 func hasProp(fc *FuncContract, p string) bool {
 	for _, q := range fc.Props {
-		if q == p {
+		if q == p || q == p+":safety" {
 			return true
 		}
 	}
@@ -163,7 +165,8 @@ type ObligReport struct {
 	Engines   map[string]int  `json:"engines"`
 	Ms        int64           `json:"solver_ms"`
 	Failures  []FailureReport `json:"failures,omitempty"`
-	Sample    string          `json:"sample_goal,omitempty"`
+	raw       []*Failure
+	Sample    string `json:"sample_goal,omitempty"`
 }
 
 type FailureReport struct {
@@ -216,7 +219,7 @@ func buildReport(eng *Engine, results []*FuncResult, prop, tier string, loadMs i
 		fr := FuncReport{Key: r.Key, Display: r.Display, Props: r.Props, Paths: r.Paths, Returns: r.Returns, Panics: r.Panics, Capped: r.Capped,
 			Vacuous: r.Vacuous, Error: r.Error, WallMs: r.WallMs, Notes: r.Notes, Specs: r.Specs, Inputs: r.Inputs}
 		for _, o := range r.Obligs {
-			if prop != "" && len(o.Props) > 0 && !contains(o.Props, prop) {
+			if prop != "" && !obligMatchesProp(o, prop) {
 				continue
 			}
 			or := ObligReport{Name: o.Name, Function: o.Fn, Kind: o.Kind, Props: o.Props, Pos: o.Pos, Text: o.Text, Instances: o.Instances,
@@ -229,6 +232,7 @@ func buildReport(eng *Engine, results []*FuncResult, prop, tier string, loadMs i
 				or.Status = "failed"
 				rep.Failed++
 				rep.Obligations++
+				or.raw = o.Failures
 				for _, f := range o.Failures {
 					if f.Script == "" && f.Trace == nil {
 						continue
@@ -280,6 +284,26 @@ func buildReport(eng *Engine, results []*FuncResult, prop, tier string, loadMs i
 	}
 	gStats.mu.Unlock()
 	return rep
+}
+
+// obligMatchesProp: tags are "Cnn" (all obligations) or "Cnn:safety" (only
+// safety / no-panic / termination / frame obligations count for Cnn).
+func obligMatchesProp(o *Oblig, prop string) bool {
+	if len(o.Props) == 0 {
+		return true
+	}
+	for _, p := range o.Props {
+		if p == prop {
+			return true
+		}
+		if p == prop+":safety" {
+			k := o.Kind
+			if strings.HasPrefix(k, "safety.") || k == "nopanic" || k == "termination" || k == "precondition" || k == "loop-invariant" {
+				return true
+			}
+		}
+	}
+	return false
 }
 
 func contains(xs []string, s string) bool {
